@@ -26,7 +26,7 @@ func run(c *wk.Ctx) {
 
 func runCase(c *wk.Ctx, i int) {
 	r := c.Rand(i)
-	os := model.RandomOptions(r, model.OptConstraints{})
+	os := model.RandomOptions(r, model.OptConstraints{NonInjective: true})
 	nkeys := 200 + r.Intn(1800)
 	nops := 300 + r.Intn(c.Pick(2200, 3700))
 	if l0 := os.O.WriteL0SlowdownTrigger; l0 <= 2 {
